@@ -161,7 +161,11 @@ C05GenFails(e, b) ==
               /\ (ref.alg # "none" => "typ" \in DOMAIN hs)
               /\ (b.iat => "iat" \in DOMAIN cs /\ cs["iat"] = <<"int", "", now>>)
               /\ (b.expOn => "exp" \in DOMAIN cs /\ cs["exp"] = <<"int", "", WAdd(now, b.expOff)>>)
-              /\ (b.nbfOn => "nbf" \in DOMAIN cs /\ cs["nbf"] = <<"int", "", WAdd(now, b.nbfOff)>>), "C05.added-members")
+              /\ (b.nbfOn => "nbf" \in DOMAIN cs /\ cs["nbf"] = <<"int", "", WAdd(now, b.nbfOff)>>)
+              \* a time claim the library does NOT add is the application's: the token carries what the builder was given
+              /\ (~b.iat /\ "iat" \in DOMAIN b.clm => "iat" \in DOMAIN cs /\ cs["iat"] = b.clm["iat"])
+              /\ (~b.expOn /\ "exp" \in DOMAIN b.clm => "exp" \in DOMAIN cs /\ cs["exp"] = b.clm["exp"])
+              /\ (~b.nbfOn /\ "nbf" \in DOMAIN b.clm => "nbf" \in DOMAIN cs /\ cs["nbf"] = b.clm["nbf"]), "C05.added-members")
 \* C05: what the checker callback reads is what the token carries
 C05ReadFails(e) ==
   IF ~(e.tok.src = "slot" /\ Has(e, "cbres") /\ Len(e.cbres) > 0) THEN {}
@@ -382,6 +386,8 @@ Fails(e) == (IF IsOpEvent(e) THEN FaultFails(e) ELSE {}) \cup
               \cup (IF e.exit1 # 0 \/ e.nkeys1 # 1 THEN {} ELSE
                       F(P_SameKey(e.imp, e.kty, e.bits, e.priv) /\ SameRsaType(e, e.imp), "C20.key2jwk-samekey")
                       \cup (IF e.kty = "EC" THEN F(P_EcWidths(e.bits, e.priv, e.xlen, e.ylen, e.dlen), "C20.ec-width") ELSE {})
+                      \* RFC 7518 section 2, Base64urlUInt: the minimum number of octets (no leading zero octet in n, e, d, p, q, dp, dq, qi)
+                      \cup (IF e.kty = "RSA" /\ Has(e, "rsamin") THEN F(e.rsamin = 1, "C20.rsa-minimal") ELSE {})
                       \cup F(e.exit2 = 0 /\ e.nfiles = 1, "C20.jwk2key-exit")
                       \cup (IF e.exit2 # 0 \/ e.nfiles # 1 \/ e.exit3 # 0 THEN F(e.exit3 = 0, "C20.jwk2key-output")
                             ELSE F(P_SameKey(e.imp2, e.kty, e.bits, e.priv) /\ SameRsaType(e, e.imp2), "C20.jwk2key-samekey")))
@@ -397,6 +403,9 @@ Fails(e) == (IF IsOpEvent(e) THEN FaultFails(e) ELSE {}) \cup
                           \* descriptors are a resource like memory: when every object of the case has been
                           \* freed the process holds the descriptors it held when the case began
                           \cup (IF Has(e, "fd") /\ Prop \in LeakProps THEN F(e.fd = 0, Prop \o ".fdleak") ELSE {})
+                          \* under an application allocator: every block obtained from it during the case went back to it
+                          \* (a block released with libc's free() instead is a leak to a pool or a quota allocator)
+                          \cup (IF Has(e, "trk") /\ Prop \in LeakProps THEN F(e.trk = 0, Prop \o ".allocleak") ELSE {})
     [] e.e = "End" -> IF Has(e, "leak") /\ Prop \in LeakProps THEN F(e.leak = 0, Prop \o ".leak") ELSE {}
     [] e.e = "Abort" -> {"abort." \o e.why}
     [] OTHER -> ConfigFails(e)
